@@ -187,10 +187,24 @@ def undo(trees: Dict[str, ast.Module]) -> List[str]:
                 v, deco = st.value, None
                 if isinstance(v, ast.Call) and isinstance(v.func, ast.Name) and v.func.id in ("staticmethod", "classmethod") and len(v.args) == 1 and not v.keywords:
                     deco, v = v.func.id, v.args[0]
-                if not isinstance(v, ast.Name) or v.id not in mb:
-                    continue
-                kind, data = mb[v.id]
                 src_def, xmod, xb, rel_x = None, mname, mb, rel
+                if isinstance(v, ast.Attribute) and isinstance(v.value, ast.Name) and v.value.id in mb and mb[v.value.id][0] in ("import", "from"):
+                    # <module alias>.<function>: `import msmart._crypto as _crypto` / `from msmart import _crypto`
+                    k0, d0 = mb[v.value.id]
+                    xm = d0[0] if k0 == "import" else ((_abs_from(mname, rel, d0) + "." + d0[2]) if _abs_from(mname, rel, d0) else d0[2])
+                    if xm in mods and xm.startswith(PKG):
+                        rel_x, xtree = mods[xm]
+                        xb = _top_bindings(xtree)
+                        b = xb.get(v.attr)
+                        if b is not None and b[0] == "def" and isinstance(b[1], (ast.FunctionDef, ast.AsyncFunctionDef)):
+                            src_def, xmod = b[1], xm
+                    if src_def is None:
+                        continue
+                    kind, data = "module-attr", None
+                elif not isinstance(v, ast.Name) or v.id not in mb:
+                    continue
+                else:
+                    kind, data = mb[v.id]
                 if kind == "def" and isinstance(data, (ast.FunctionDef, ast.AsyncFunctionDef)):
                     src_def = data
                 elif kind == "from":
@@ -249,6 +263,11 @@ def freeze_signatures(root: str = "/repo") -> int:
                             a = st.args
                             if not a.vararg and not a.kwarg:
                                 out[q] = {"pos": [x.arg for x in a.posonlyargs + a.args], "kwonly": [x.arg for x in a.kwonlyargs]}
+                            if q in known:
+                                skip_ = {id(x) for f_ in ast.walk(st) if isinstance(f_, (ast.FunctionDef, ast.AsyncFunctionDef, ast.Lambda)) and f_ is not st for x in ast.walk(f_)}
+                                out.setdefault(q, {})["returns_value"] = any(
+                                    isinstance(r, ast.Return) and id(r) not in skip_ and r.value is not None and not (isinstance(r.value, ast.Constant) and r.value.value is None)
+                                    for r in ast.walk(st))
                     elif isinstance(st, ast.ClassDef):
                         visit(st.body, f"{prefix}.{st.name}")
             visit(tree.body, mname)
@@ -279,7 +298,7 @@ def undo_signatures(trees: Dict[str, ast.Module]) -> List[str]:
                     a = st.args
                     cur = [x.arg for x in a.posonlyargs + a.args + a.kwonlyargs]
                     wref = ref.get(q)
-                    if wref is None or a.vararg or a.kwarg:
+                    if wref is None or "pos" not in wref or a.vararg or a.kwarg:
                         continue
                     want, want_kw = wref["pos"], wref["kwonly"]
                     if (cur[:len(cur) - len(a.kwonlyargs)] == want and [x.arg for x in a.kwonlyargs] == want_kw) or sorted(cur) != sorted(want + want_kw):
@@ -361,3 +380,229 @@ if __name__ == "__main__":
     import sys
     if sys.argv[1:2] == ["freeze"]:
         print(freeze_signatures(sys.argv[2] if len(sys.argv) > 2 else "/repo"), "signatures frozen")
+
+
+# ---------------------------------------------------------------------------------------------------------------------------------------
+# helpers extracted into another module and called in statement or tail position (`queue_flush(self._queue)`, `return await
+# queue_get(self._queue, timeout)`) are put back in line: parameters replaced by the (side-effect free) argument expressions, the helper's
+# locals renamed apart.  The value-flow engine sees through such helpers anyway; the rules that look at the shape of a function body
+# (what drains the queue, what the callback does to its buffer) and the raise analysis' model of `self._queue` then see the statements
+# where the reference tree has them.
+
+def undo_extractions(trees: Dict[str, ast.Module]) -> List[str]:
+    known = _known()
+    mods = {_modname(rel): (rel, t) for rel, t in trees.items()}
+    done: List[str] = []
+    counter = [0]
+
+    def is_anchor(q: str) -> bool:
+        return q in known or any(k.startswith(q + ".") for k in known)
+
+    def simple(e):
+        if isinstance(e, (ast.Name, ast.Constant)):
+            return True
+        return isinstance(e, ast.Attribute) and simple(e.value)
+
+    class Subst(ast.NodeTransformer):
+        def __init__(self, bind, ren):
+            self.bind, self.ren = bind, ren
+
+        def visit_Name(self, n):
+            if n.id in self.bind and isinstance(n.ctx, ast.Load):
+                return ast.copy_location(copy.deepcopy(self.bind[n.id]), n)
+            if n.id in self.ren:
+                return ast.copy_location(ast.Name(id=self.ren[n.id], ctx=n.ctx), n)
+            return n
+
+    for mname, (rel, tree) in sorted(mods.items()):
+        base = os.path.basename(rel)
+        if base.startswith("test_") or "/tests/" in "/" + rel or not mname.startswith(PKG):
+            continue
+        mb = _top_bindings(tree)
+
+        def helper_of(call):
+            if not isinstance(call.func, ast.Name) or call.func.id not in mb:
+                return None
+            kind, data = mb[call.func.id]
+            if kind != "from":
+                return None
+            xm = _abs_from(mname, rel, data)
+            if xm not in mods or xm == mname or not xm.startswith(PKG) or is_anchor(f"{xm}.{data[2]}"):
+                return None
+            rel_x, xtree = mods[xm]
+            xb = _top_bindings(xtree)
+            b = xb.get(data[2])
+            if b is None or b[0] != "def" or not isinstance(b[1], (ast.FunctionDef, ast.AsyncFunctionDef)):
+                return None
+            return b[1], xm, xb, rel_x
+
+        def try_inline(st):
+            """replacement statements for st, or None"""
+            v = st.value if isinstance(st, (ast.Expr, ast.Return)) else None
+            awaited = isinstance(v, ast.Await)
+            call = v.value if awaited else v
+            if not isinstance(call, ast.Call):
+                return None
+            h = helper_of(call)
+            if h is None:
+                return None
+            f, xm, xb, rel_x = h
+            if isinstance(f, ast.AsyncFunctionDef) != awaited or f.decorator_list:
+                return None
+            a = f.args
+            if a.vararg or a.kwarg or a.posonlyargs or a.kwonlyargs:
+                return None
+            inner = [n for b_ in f.body for n in ast.walk(b_)]
+            if any(isinstance(n, (ast.FunctionDef, ast.AsyncFunctionDef, ast.Lambda, ast.Yield, ast.YieldFrom, ast.Global, ast.Nonlocal, ast.ClassDef)) for n in inner):
+                return None
+            rets = [n for n in inner if isinstance(n, ast.Return)]
+            if isinstance(st, ast.Expr) and rets:
+                return None
+            if any(isinstance(x, ast.Starred) for x in call.args) or any(k.arg is None for k in call.keywords) or not all(simple(x) for x in list(call.args) + [k.value for k in call.keywords]):
+                return None
+            names = [x.arg for x in a.args]
+            if len(call.args) > len(names):
+                return None
+            bind = dict(zip(names, call.args))
+            for k in call.keywords:
+                if k.arg not in names or k.arg in bind:
+                    return None
+                bind[k.arg] = k.value
+            for p, d in zip(names[len(names) - len(a.defaults):], a.defaults):
+                bind.setdefault(p, d)
+            if set(bind) != set(names):
+                return None
+            stores = {n.id for n in inner if isinstance(n, ast.Name) and isinstance(n.ctx, (ast.Store, ast.Del))} | \
+                {n.name for n in inner if isinstance(n, ast.ExceptHandler) and n.name}
+            if stores & set(names):
+                return None          # (a parameter re-bound in the helper: not a plain substitution)
+            need = _needs(f, xb, xm, mb, mname, rel_x)
+            if need is None:
+                return None
+            counter[0] += 1
+            ren = {n: f"_inl{counter[0]}_{n}" for n in stores}
+            body = [b_ for b_ in copy.deepcopy(f.body) if not (isinstance(b_, ast.Expr) and isinstance(b_.value, ast.Constant) and isinstance(b_.value.value, str))]
+            body = [Subst(bind, ren).visit(b_) for b_ in body]
+            for b_ in body:
+                for n in ast.walk(b_):
+                    if isinstance(n, ast.ExceptHandler) and n.name in ren:
+                        n.name = ren[n.name]
+                    ast.copy_location(n, st) if not hasattr(n, "lineno") else None
+            if isinstance(st, ast.Return) and not (body and isinstance(body[-1], (ast.Return, ast.Raise))):
+                body.append(ast.copy_location(ast.Return(value=None), st))
+            for imp in need:
+                tree.body.insert(0, imp)
+                for al in imp.names:
+                    mb[al.asname or al.name.split(".")[0]] = ("from", (imp.module, 0, al.name, al.asname)) if isinstance(imp, ast.ImportFrom) else ("import", (al.name, None, al.asname))
+            done.append(f"{xm}.{f.name} inlined into {mname} (line {getattr(st, 'lineno', '?')})")
+            return body or [ast.copy_location(ast.Pass(), st)]
+
+        def rewrite(stmts):
+            out = []
+            for st in stmts:
+                for fld in ("body", "orelse", "finalbody"):
+                    if isinstance(getattr(st, fld, None), list) and getattr(st, fld) and isinstance(getattr(st, fld)[0], ast.stmt):
+                        setattr(st, fld, rewrite(getattr(st, fld)))
+                for h in getattr(st, "handlers", []) or []:
+                    h.body = rewrite(h.body)
+                rep = try_inline(st) if isinstance(st, (ast.Expr, ast.Return)) else None
+                out.extend(rep if rep is not None else [st])
+            return out
+        for n in ast.walk(tree):
+            if isinstance(n, (ast.FunctionDef, ast.AsyncFunctionDef)):
+                n.body = rewrite(n.body)
+        ast.fix_missing_locations(tree)
+    return done
+
+
+# ---------------------------------------------------------------------------------------------------------------------------------------
+# "the caller owns the result": a known method that used to store what it built in an attribute of its object now returns it, and every
+# caller writes `self.A = [await] self.m(..)`.  Same stores, one frame higher - put back: `return e` in m becomes `self.A = e; return`, the
+# call sites become plain calls.  Only when *every* call of m in the package has that form with the same attribute.
+
+def undo_result_ownership(trees: Dict[str, ast.Module]) -> List[str]:
+    import json
+    known = _known()
+    done: List[str] = []
+    ref = json.load(open(_sig_path())) if os.path.exists(_sig_path()) else {}
+    # call sites by method name, once: (rel, call, parent map, enclosing class node or None, in a test module)
+    calls: Dict[str, list] = {}
+    for rel2, tree2 in trees.items():
+        is_test = os.path.basename(rel2).startswith("test_") or "/tests/" in "/" + rel2
+        par, owner = {}, {}
+        stack = [(tree2, None)]
+        while stack:
+            node, cls_ = stack.pop()
+            for ch in ast.iter_child_nodes(node):
+                par[ch] = node
+                owner[ch] = cls_
+                stack.append((ch, ch if isinstance(ch, ast.ClassDef) else cls_))
+        for c in list(par):
+            if isinstance(c, ast.Call) and isinstance(c.func, ast.Attribute):
+                calls.setdefault(c.func.attr, []).append((rel2, c, par, owner.get(c), is_test))
+    for rel, tree in sorted(trees.items()):
+        base = os.path.basename(rel)
+        if base.startswith("test_") or "/tests/" in "/" + rel:
+            continue
+        mname = _modname(rel)
+        for cls in [n for n in tree.body if isinstance(n, ast.ClassDef)]:
+            for m in [x for x in cls.body if isinstance(x, (ast.FunctionDef, ast.AsyncFunctionDef))]:
+                name = m.name
+                q = f"{mname}.{cls.name}.{name}"
+                if q not in known or not m.args.args or name not in calls or ref.get(q, {}).get("returns_value", True):
+                    continue          # (only a method that had no result in the reference tree)
+                inner_fns = [n for n in ast.walk(m) if isinstance(n, (ast.FunctionDef, ast.AsyncFunctionDef, ast.Lambda)) and n is not m]
+                skip = {id(x) for f_ in inner_fns for x in ast.walk(f_)}
+                rets = [n for n in ast.walk(m) if isinstance(n, ast.Return) and id(n) not in skip]
+                if not rets or any(r.value is None or (isinstance(r.value, ast.Constant) and r.value.value is None) for r in rets):
+                    continue
+                if any(isinstance(n, (ast.Yield, ast.YieldFrom)) for n in ast.walk(m)):
+                    continue
+                sites, other = [], 0
+                for rel2, c, par, cls_, is_test in calls[name]:
+                    recv_self = isinstance(c.func.value, ast.Name) and c.func.value.id == "self"
+                    if not (rel2 == rel and cls_ is cls and recv_self):
+                        other += 0 if is_test else 1
+                        continue
+                    p = par.get(c)
+                    if isinstance(p, ast.Await):
+                        p = par.get(p)
+                    if isinstance(p, ast.Assign) and len(p.targets) == 1 and isinstance(p.targets[0], ast.Attribute) and isinstance(p.targets[0].value, ast.Name) \
+                            and p.targets[0].value.id == "self" and (p.value is c or (isinstance(p.value, ast.Await) and p.value.value is c)):
+                        sites.append((p, p.targets[0].attr, par))
+                    else:
+                        other += 1
+                attrs = {a_ for _p, a_, _par in sites}
+                if other or not sites or len(attrs) != 1:
+                    continue
+                attr = attrs.pop()
+                selfn = m.args.args[0].arg
+
+                def fix(stmts):
+                    out = []
+                    for st in stmts:
+                        if isinstance(st, ast.Return) and any(st is r for r in rets):
+                            asg = ast.Assign(targets=[ast.Attribute(value=ast.Name(id=selfn, ctx=ast.Load()), attr=attr, ctx=ast.Store())], value=st.value)
+                            out += [ast.copy_location(asg, st), ast.copy_location(ast.Return(value=None), st)]
+                            continue
+                        if not isinstance(st, (ast.FunctionDef, ast.AsyncFunctionDef, ast.ClassDef)):
+                            for fld in ("body", "orelse", "finalbody"):
+                                lst = getattr(st, fld, None)
+                                if isinstance(lst, list) and lst and isinstance(lst[0], ast.stmt):
+                                    setattr(st, fld, fix(lst))
+                            for h in getattr(st, "handlers", []) or []:
+                                h.body = fix(h.body)
+                        out.append(st)
+                    return out
+                m.body = fix(m.body)
+                m.returns = None
+                for p, _a, par in sites:
+                    p_new = ast.copy_location(ast.Expr(value=p.value), p)
+                    holder = par.get(p)
+                    for fld in ("body", "orelse", "finalbody"):
+                        lst = getattr(holder, fld, None)
+                        if isinstance(lst, list) and any(x is p for x in lst):
+                            lst[[i for i, x in enumerate(lst) if x is p][0]] = p_new
+                done.append(f"{q} stores self.{attr} itself again ({len(sites)} call sites assigned its result)")
+        ast.fix_missing_locations(tree)
+    return done
